@@ -22,7 +22,7 @@ from fractions import Fraction
 import numpy as np
 
 PROP = 'C06'
-TARGETS = ['T6a', 'T6b', 'T6c', 'T6d', 'T6e', 'T6f', 'T6g', 'T6h', 'T6i', 'T6j', 'T6k', 'T6m', 'T6n', 'T6p', 'T6q']
+TARGETS = ['T6a', 'T6b', 'T6c', 'T6d', 'T6e', 'T6f', 'T6g', 'T6h', 'T6i', 'T6j', 'T6k', 'T6m', 'T6n', 'T6p', 'T6q', 'T6r']
 LEAN_MODULES = ['HdVerif.Props.C06']
 MODEL_MODULES = ['HdVerif.Model.PixelPipeline', 'HdVerif.Generated.T6g', 'HdVerif.Generated.T6i']
 NAMESPACE = 'HdVerif.C06'
@@ -2447,6 +2447,14 @@ def stream_narrowing(ctx, reqs, pending):
                                          'what': 'output-type rules (T6p) vs transform attributes', 'layer': 'L2'},
                                         {'has_si': t._effective_slope_intercept is not None,
                                          'check_output_range': bool(t._check_output_range), 'color_output': bool(t.color_output)}))
+                        if dname == 'uint8' and mod is None:
+                            codes = {'int8': 108, 'int16': 116, 'int32': 132, 'uint8': 8, 'uint16': 16, 'uint32': 32, 'float32': 232, 'float64': 264}
+                            lo_, hi_ = stored_range(P)
+                            reqs.append(('inputType', {'is_pmap': False, 'bits_allocated': P['bits'], 'pixel_representation': int(P['signed']),
+                                                       'bits_stored': P['bits_stored']}))
+                            pending.append(({'stream': 'narrow', 'image': iname, 'variant': vname, 'what': 'type and range of the stored values '
+                                             '(T6r) vs the transform object and the range of the reference', 'layer': 'L2'},
+                                            {'dtype': codes.get(t.input_dtype.name, -1), 'has_range': True, 'lo': int(lo_), 'hi': int(hi_)}))
                     for f in (0, 1):
                         res = call(im.get_frame, f + 1, **kw)
                         case = {'stream': 'narrow', 'image': iname, 'variant': vname, 'mod': mod, 'dtype': dname, 'frame': f}
